@@ -7,7 +7,7 @@ BASE_ENUM_DERIVES = ["PartialEq", "Eq", "PartialOrd", "Ord", "Debug"]
 
 ANCHOR = {"i128min": -2**127 + 8, "i64min": -2**63, "i32min": -2**31, "i16min": -2**15, "i8min": -128, "0": 0,
           "i8max": 127, "u8max": 255, "i16max": 2**15 - 1, "u16max": 2**16 - 1, "i32max": 2**31 - 1,
-          "u32max": 2**32 - 1, "i64max": 2**63 - 1, "u64max": 2**64 - 1, "i128max": 2**127 - 9, "u128max": 2**127 - 9}
+          "u32max": 2**32 - 1, "p60": 2**60, "p61": 2**61, "p62": 2**62, "none": 0, "i64max": 2**63 - 1, "u64max": 2**64 - 1, "i128max": 2**127 - 9, "u128max": 2**127 - 9}
 
 
 def num(v):
